@@ -6,6 +6,7 @@ Driver ops of C02.
 
   c02.jws.make <payload> <raw: bool> <signers: [[protected hdr|null, unprotected hdr|null, key handle] …]> <form: "compact"|"json">
         NewMessage/NewRawMessage, Sign per signer, Compact/MarshalJSON → ok bytes
+  c02.jws.remarshal <data>  Parse then MarshalJSON → ok bytes
   c02.jwt.sign <hdr> <claims> <key handle> → ok bytes
   c02.sig.sign <key handle> <input> → ok bytes
   hdr = {"raw":obj,"alg":str,"jku":str?,"jwk":obj?,"kid":str,"x5u":str?,"x5c":[bytes…]?,"x5t":bytes?,
@@ -56,6 +57,11 @@ def ops : OpTable := [
                   else newMessage (arg a 0).asBytes : PO Message)
       let msg ← signAll msg0 (arg a 2).asArr
       let out ← (if (arg a 3).asStr == "compact" then compact msg else marshalJSON msg)
+      pure (.bytes out) : PO Wire).toOp),
+  ("c02.jws.remarshal", fun a =>
+    (do
+      let msg ← parseJSON (arg a 0).asBytes
+      let out ← marshalJSON msg
       pure (.bytes out) : PO Wire).toOp),
   ("c02.jwt.sign", fun a =>
     (do
